@@ -29,6 +29,7 @@ import (
 )
 
 type scen struct {
+	Comp string `json:"component"` // queue | neutrino | btcd
 	Kind string `json:"scenario"`
 	B    int    `json:"buffer"`
 	N    int    `json:"burst"`
@@ -36,10 +37,28 @@ type scen struct {
 }
 
 func (s scen) String() string {
+	if s.Comp != "queue" {
+		if s.Kind == "d" {
+			return fmt.Sprintf("%s:%s/N%d/K%d", s.Comp, s.Kind, s.N, s.K)
+		}
+		return fmt.Sprintf("%s:%s/N%d", s.Comp, s.Kind, s.N)
+	}
 	if s.Kind == "d" {
 		return fmt.Sprintf("%s/B%d/N%d/K%d", s.Kind, s.B, s.N, s.K)
 	}
 	return fmt.Sprintf("%s/B%d/N%d", s.Kind, s.B, s.N)
+}
+
+// label is the row of the per-scenario table (d summed over K).
+func (s scen) label() string {
+	l := fmt.Sprintf("%s/B%d/N%d", s.Kind, s.B, s.N)
+	if s.Comp != "queue" {
+		l = fmt.Sprintf("%s:%s/N%d", s.Comp, s.Kind, s.N)
+	}
+	if s.Kind == "d" {
+		l += "/K*"
+	}
+	return l
 }
 
 type replay struct {
@@ -88,6 +107,15 @@ type shard struct {
 	order       []string
 	nontrivExec int
 	maxOverflow int
+}
+
+func (sh *shard) record(sig, msg string, r replay) {
+	if v, ok := sh.viols[sig]; ok {
+		v.Count++
+		return
+	}
+	sh.viols[sig] = &viol{Sig: sig, Msg: msg, Count: 1, Replay: r}
+	sh.order = append(sh.order, sig)
 }
 
 type harness struct {
@@ -276,14 +304,9 @@ func (h *harness) EndOfExecution(trace []string, complete bool) {
 	if h.failSig == "" {
 		return
 	}
-	if v, ok := h.sh.viols[h.failSig]; ok {
-		v.Count++
-		return
-	}
-	h.sh.viols[h.failSig] = &viol{Sig: h.failSig, Msg: h.failMsg, Count: 1, Replay: replay{
+	h.sh.record(h.failSig, h.failMsg, replay{
 		Scenario: h.sc, What: "schedule = scheduler decisions thread@site:case executed against the rewritten queue.go",
-		Received: append([]int{}, h.recv...), Sent: h.sent, Threads: h.s.Describe(), Schedule: append([]string{}, trace...)}}
-	h.sh.order = append(h.sh.order, h.failSig)
+		Received: append([]int{}, h.recv...), Sent: h.sent, Threads: h.s.Describe(), Schedule: append([]string{}, trace...)})
 }
 
 func runShard(sc scen, deadlineS int) *shardResult {
@@ -291,7 +314,11 @@ func runShard(sc scen, deadlineS int) *shardResult {
 	start := time.Now()
 	cfg := vsched.Config{
 		Deadline: start.Add(time.Duration(deadlineS) * time.Second),
+		MaxFailed: 2000,
 		Setup: func(s *vsched.Sched) vsched.Harness {
+			if sc.Comp != "queue" {
+				return setupHandler(sh, sc, s)
+			}
 			h := &harness{sh: sh, sc: sc, s: s}
 			h.q = queue.NewConcurrentQueue(sc.B)
 			s.NameNext("worker")
@@ -323,15 +350,17 @@ func runShard(sc scen, deadlineS int) *shardResult {
 }
 
 func shardMain(args []string) {
-	if len(args) != 5 {
-		ev.Fatal("usage: shard <kind> <B> <N> <K> <deadline_s>")
+	if len(args) != 6 {
+		ev.Fatal("usage: shard <component> <kind> <B> <N> <K> <deadline_s>")
 	}
+	comp := args[0]
+	args = args[1:]
 	b, _ := strconv.Atoi(args[1])
 	n, _ := strconv.Atoi(args[2])
 	k, _ := strconv.Atoi(args[3])
 	dl, _ := strconv.Atoi(args[4])
 	vsched.HarnessError = func(msg string) {
-		fmt.Fprintf(os.Stderr, "HARNESS-ERROR: c18 %s/B%d/N%d: %s\n", args[0], b, n, msg)
+		fmt.Fprintf(os.Stderr, "HARNESS-ERROR: c18 %s %s/B%d/N%d/K%d: %s\n", comp, args[0], b, n, k, msg)
 		os.Exit(2)
 	}
 	// Watchdog: a thread that never reaches a scheduling point (e.g. a loop
@@ -351,12 +380,12 @@ func shardMain(args []string) {
 			}
 			last = now
 			if idle >= 3 && atomic.LoadInt32(&finished) == 0 {
-				fmt.Fprintf(os.Stderr, "HARNESS-ERROR: c18 %s/B%d/N%d: a thread did not reach a scheduling point for 9 s (loop without channel operations?)\n", args[0], b, n)
+				fmt.Fprintf(os.Stderr, "HARNESS-ERROR: c18 %s %s/B%d/N%d/K%d: a thread did not reach a scheduling point for 9 s (loop without channel operations?)\n", comp, args[0], b, n, k)
 				os.Exit(2)
 			}
 		}
 	}()
-	res := runShard(scen{Kind: args[0], B: b, N: n, K: k}, dl)
+	res := runShard(scen{Comp: comp, Kind: args[0], B: b, N: n, K: k}, dl)
 	atomic.StoreInt32(&finished, 1)
 	enc := json.NewEncoder(os.Stdout)
 	if err := enc.Encode(res); err != nil {
@@ -375,7 +404,7 @@ func Run(args []string) {
 		return
 	}
 	run := ev.NewRun("C18", "model_checking", args)
-	maxB, maxN, deadlineS := 3, 5, 40
+	maxB, maxN, deadlineS := 3, 5, 30
 	if run.Thorough() {
 		maxB, maxN, deadlineS = 5, 9, 480
 	}
@@ -396,19 +425,85 @@ func Run(args []string) {
 	for n := 1; n <= maxN; n++ {
 		for b := 0; b <= maxB; b++ {
 			for _, k := range []string{"a", "b", "c"} {
-				scens = append(scens, scen{k, b, n, n})
+				scens = append(scens, scen{"queue", k, b, n, n})
 			}
 			for k := 0; k < n; k++ {
-				scens = append(scens, scen{"d", b, n, k})
+				scens = append(scens, scen{"queue", "d", b, n, k})
+			}
+		}
+	}
+	// The clients' handler loops: every scenario for small bursts, the
+	// consumer-absent-then-drain scenario for EVERY burst length up to hMax,
+	// and the interleaved scenarios for a few long bursts.
+	hSmall, hMax := 5, 40
+	longA, longC, longD := []int{8, 16, 24, 33, 40}, []int{8, 16, 20}, []int{8, 16}
+	if run.Thorough() {
+		hSmall, hMax = 7, 70
+		longA = []int{8, 16, 24, 32, 33, 34, 40, 48, 64, 65, 70}
+		longC = []int{8, 16, 24, 33, 40}
+		longD = []int{8, 16, 24, 33}
+	}
+	if n, err := strconv.Atoi(os.Getenv("C18_HMAX")); err == nil && n >= 1 {
+		hMax = n
+	}
+	in := func(l []int, n int) bool {
+		for _, x := range l {
+			if x == n {
+				return true
+			}
+		}
+		return false
+	}
+	for _, comp := range []string{"neutrino", "btcd"} {
+		for n := 1; n <= hMax; n++ {
+			small := n <= hSmall
+			if small || in(longA, n) {
+				scens = append(scens, scen{comp, "a", 0, n, n})
+			}
+			scens = append(scens, scen{comp, "b", 0, n, n})
+			if small || in(longC, n) {
+				scens = append(scens, scen{comp, "c", 0, n, n})
+			}
+			if small {
+				scens = append(scens, scen{comp, "r", 0, n, n})
+				for k := 0; k < n; k++ {
+					scens = append(scens, scen{comp, "d", 0, n, k})
+				}
+			} else if in(longD, n) {
+				scens = append(scens, scen{comp, "d", 0, n, 0}, scen{comp, "d", 0, n, n / 2})
 			}
 		}
 	}
 	results := make([]*shardResult, len(scens))
 	errs := make([]string, len(scens))
 	var wg sync.WaitGroup
-	// largest scenarios first on the pool, results are consumed in list order
+	// most expensive scenarios first on the pool (estimated: re-execution
+	// makes the cost cubic in the burst); results are consumed in list order
+	weight := func(sc scen) float64 {
+		n := float64(sc.N + sc.B)
+		w := n * n * n
+		if sc.Comp != "queue" {
+			switch sc.Kind {
+			case "b":
+				w = n * n / 10
+			case "c", "d":
+				w *= 6
+			case "r":
+				w *= 3
+			}
+			if sc.Comp == "neutrino" {
+				w *= 2.5
+			}
+		}
+		return w
+	}
+	orderIdx := make([]int, len(scens))
+	for i := range orderIdx {
+		orderIdx[i] = i
+	}
+	sort.SliceStable(orderIdx, func(a, b int) bool { return weight(scens[orderIdx[a]]) > weight(scens[orderIdx[b]]) })
 	idx := make(chan int, len(scens))
-	for i := len(scens) - 1; i >= 0; i-- {
+	for _, i := range orderIdx {
 		idx <- i
 	}
 	close(idx)
@@ -427,7 +522,7 @@ func Run(args []string) {
 					return // a shard reported a harness error: stop
 				}
 				sc := scens[i]
-				cmd := exec.CommandContext(ctx, "/proc/self/exe", "shard", sc.Kind, strconv.Itoa(sc.B), strconv.Itoa(sc.N), strconv.Itoa(sc.K), strconv.Itoa(deadlineS))
+				cmd := exec.CommandContext(ctx, "/proc/self/exe", "shard", sc.Comp, sc.Kind, strconv.Itoa(sc.B), strconv.Itoa(sc.N), strconv.Itoa(sc.K), strconv.Itoa(deadlineS))
 				var stderr strings.Builder
 				cmd.Stderr = &stderr
 				out, err := cmd.Output()
@@ -461,7 +556,10 @@ func Run(args []string) {
 	rows := map[string]*shardResult{} // per (scenario, buffer, burst); d summed over K
 	var rowOrder []string
 	var samples []string
-	wantSample := map[string]bool{"a/B0/N1": true, "b/B1/N3": true, "c/B1/N2": true, "d/B1/N3/K1": true}
+	wantSample := map[string]bool{"a/B0/N1": true, "b/B1/N3": true, "c/B1/N2": true, "d/B1/N3/K1": true, "neutrino:a/N1": true, "btcd:b/N2": true}
+	comps := map[string]*shardResult{}
+	compScens := map[string]int{}
+	compMaxN := map[string]int{}
 	for _, r := range results {
 		tot.States += r.States
 		tot.Transitions += r.Transitions
@@ -486,10 +584,30 @@ func Run(args []string) {
 		for t := range r.Terminals {
 			terminals[t] = true
 		}
-		label := fmt.Sprintf("%s/B%d/N%d", r.Scen.Kind, r.Scen.B, r.Scen.N)
-		if r.Scen.Kind == "d" {
-			label += fmt.Sprintf("/K0..%d", r.Scen.N-1)
+		cname := map[string]string{"queue": "queue.go ConcurrentQueue", "neutrino": "neutrino.go notificationHandler", "btcd": "btcd.go handler"}[r.Scen.Comp]
+		ct := comps[cname]
+		if ct == nil {
+			ct = &shardResult{Exhaustive: true}
+			comps[cname] = ct
 		}
+		compScens[cname]++
+		if r.Scen.N > compMaxN[cname] {
+			compMaxN[cname] = r.Scen.N
+		}
+		ct.States += r.States
+		ct.Transitions += r.Transitions
+		ct.Steps += r.Steps
+		ct.Executions += r.Executions
+		ct.Complete += r.Complete
+		ct.Failed += r.Failed
+		ct.MultiReady += r.MultiReady
+		ct.NontrivialStates += r.NontrivialStates
+		ct.WallMs += r.WallMs
+		if r.MaxDepth > ct.MaxDepth {
+			ct.MaxDepth = r.MaxDepth
+		}
+		ct.Exhaustive = ct.Exhaustive && r.Exhaustive
+		label := r.Scen.label()
 		row := rows[label]
 		if row == nil {
 			row = &shardResult{Exhaustive: true, Terminals: map[string]int{}}
@@ -551,6 +669,21 @@ func Run(args []string) {
 			"distinct_terminal_observations": len(r.Terminals), "violating_executions": r.Failed, "exhaustive": r.Exhaustive, "cpu_ms": r.WallMs,
 		})
 	}
+	components := map[string]interface{}{}
+	for name, ct := range comps {
+		if ct.States == 0 || ct.Executions == 0 {
+			ev.Fatal("nothing was explored for %s", name)
+		}
+		components[name] = map[string]interface{}{
+			"scenarios": compScens[name], "max_burst": compMaxN[name], "states": ct.States, "transitions": ct.Transitions,
+			"executions": ct.Executions, "complete_executions": ct.Complete, "violating_executions": ct.Failed,
+			"scheduler_steps_executed": ct.Steps, "max_depth": ct.MaxDepth, "select_points_multi_ready": ct.MultiReady,
+			"nontrivial_states": ct.NontrivialStates, "exhaustive": ct.Exhaustive, "cpu_ms": ct.WallMs,
+		}
+	}
+	if len(components) != 3 {
+		ev.Fatal("expected three components, explored %d", len(components))
+	}
 	if tot.States == 0 || tot.Executions == 0 {
 		ev.Fatal("nothing was explored")
 	}
@@ -566,7 +699,8 @@ func Run(args []string) {
 		samples = []string{"(no complete execution)"}
 	}
 	run.Assumption = []string{
-		"channel semantics are those of the vsched model (Go memory model / runtime select semantics: ready cases chosen arbitrarily, default only if nothing is ready, FIFO wait queues, direct hand-off to parked counterparts); the rewritten queue.go is generated from the current tree at check time",
+		"channel semantics are those of the vsched model (Go memory model / runtime select semantics: ready cases chosen arbitrarily, default only if nothing is ready, FIFO wait queues, direct hand-off to parked counterparts); the rewritten queue.go and the extracted handler loops of neutrino.go / btcd.go (with each client's real Stop) are generated from the current tree at check time",
+		"handler loops run against a generated receiver: GetBestBlock returns a fixed stamp, log calls and the rpc client's Shutdown/WaitForShutdown are no-ops, clientMtx/quitMtx are modelled mutexes, rescanErr is nil (no rescan running); producers use the clients' own `select { case enqueue <- n: case <-quit: }` idiom, the consumer ranges over dequeueNotification",
 		"channel operations are the only scheduling points: code between two channel operations of a thread touches only thread-local data (overflow list is worker-local, observations are consumer-local)",
 		"the canonical state covers the worker's locals through its pending operation (site and offered values) and the overflow list; a mutated worker with further hidden locals could be pruned too early",
 		"termination claims are about maximal executions of the finite system (every thread that can move eventually moves)",
@@ -586,13 +720,15 @@ func Run(args []string) {
 		"states_multi_runnable":          tot.MultiRunnable,
 		"scenarios":                      len(scens),
 		"per_scenario":                   table,
-		"bounds":                         fmt.Sprintf("buffer sizes 0..%d x burst lengths 1..%d x scenarios {a: producer||consumer||worker then Stop, b: no consumer until the producer finished, then late consumer, then Stop, c: a with Stop() at any point, d: c with a consumer that stops receiving for good after K items, K=0..burst-1}; unbounded preemptions, no depth bound", maxB, maxN),
+		"components":                     components,
+		"handler_bounds":                 fmt.Sprintf("per client (neutrino, btcd): bursts 1..%d with scenarios a, b, c, r (a plus two concurrent BlockStamp() readers), d with K=0..burst-1; scenario b (no consumer until the producer finished, then drain, then Stop) for EVERY burst 1..%d; a for bursts %v; c for bursts %v; d with K in {0, burst/2} for bursts %v", hSmall, hMax, longA, longC, longD),
+		"bounds":                         fmt.Sprintf("queue.go: buffer sizes 0..%d x burst lengths 1..%d x scenarios {a: producer||consumer||worker then Stop, b: no consumer until the producer finished, then late consumer, then Stop, c: a with Stop() at any point, d: c with a consumer that stops receiving for good after K items, K=0..burst-1}; unbounded preemptions, no depth bound", maxB, maxN),
 		"exhaustive":                     tot.Exhaustive,
 		"samples":                        samples,
 		"evaluations":                    tot.Executions,
 		"distinct_nontrivial":            tot.NontrivialStates,
 		"executions_with_overflow":       tot.NontrivialExecs,
 		"max_overflow_len":               tot.MaxOverflow,
-		"rule":                           "every reachable canonical state (thread pcs/pending operations, channel buffers and wait queues, closed flags, overflow list, observations) of every scenario; non-trivial = distinct states in which the overflow list is non-empty",
+		"rule":                           "every reachable canonical state (thread pcs/pending operations, channel buffers and wait queues, closed flags, overflow list, observations) of every scenario; non-trivial = distinct states in which the overflow list is non-empty (queue.go) / in which the handler holds at least two undelivered notifications (handler loops)",
 	})
 }
